@@ -9,11 +9,14 @@ require (
 	github.com/getlantern/golog v0.0.0-20210606115803-bce9f9fe5a5f
 	github.com/getlantern/wal v0.0.0-20220217194315-e4eac848dbd1
 	github.com/getlantern/zenodb v0.0.0
+	github.com/gorilla/mux v1.7.1
+	github.com/gorilla/securecookie v1.1.1
 	pgregory.net/rapid v1.3.0
 )
 
 require (
 	github.com/aristanetworks/goarista v0.0.0-20190502180301-283422fc1708 // indirect
+	github.com/boltdb/bolt v1.3.1 // indirect
 	github.com/cespare/xxhash/v2 v2.1.1 // indirect
 	github.com/cloudfoundry/gosigar v1.1.0 // indirect
 	github.com/davecgh/go-spew v1.1.1 // indirect
@@ -27,6 +30,7 @@ require (
 	github.com/getlantern/mtime v0.0.0-20170117193331-ba114e4a82b0 // indirect
 	github.com/getlantern/ops v0.0.0-20200403153110-8476b16edcd6 // indirect
 	github.com/getlantern/sqlparser v0.0.0-20171012210704-a879d8035f3c // indirect
+	github.com/getlantern/uuid v1.2.0 // indirect
 	github.com/getlantern/vtime v0.0.0-20160810174823-dc1e573cf991 // indirect
 	github.com/getlantern/yaml v0.0.0-20190801163808-0c9bb1ebf426 // indirect
 	github.com/go-redis/redis/v8 v8.11.3 // indirect
@@ -39,6 +43,7 @@ require (
 	github.com/oxtoacart/bpool v0.0.0-20190530202638-03653db5a59c // indirect
 	github.com/oxtoacart/emsort v0.0.0-20160911032127-e467347e3354 // indirect
 	github.com/pmezard/go-difflib v1.0.0 // indirect
+	github.com/retailnext/hllpp v1.0.0 // indirect
 	github.com/rickar/props v0.0.0-20170718221555-0b06aeb2f037 // indirect
 	github.com/shirou/gopsutil v2.18.12+incompatible // indirect
 	github.com/spaolacci/murmur3 v1.1.0 // indirect
